@@ -564,6 +564,9 @@ class TimeResponseData:
         :type: 2D or 3D array
 
         """
+        if self.x is None:
+            return None
+
         # Figure out the squeeze setting (attribute or package default)
         squeeze = self.squeeze
         if squeeze is None:
